@@ -2,6 +2,7 @@
 import logging
 import threading
 
+from vf import common
 from vf import htf
 from vf.sched import explore, runtime
 
@@ -93,7 +94,7 @@ def check(ex):
 
 
 # ---- SIGINT: "when execute() returns (or re-raises KeyboardInterrupt) the record is complete ... called exactly once" ----
-SIGINT_CFGS = {'quick': [(('plain3', 2, 'sigint', 'free'), 0)],
+SIGINT_CFGS = {'quick': [(('plain3', 2, 'sigint', 'free'), 0), (('group', 2, 'sigint', 'free'), 0)],
                'thorough': [(('plain3', 2, 'sigint', 'free'), 0), (('group', 2, 'sigint', 'free'), 0), (('repeat', 2, 'sigint', 'free'), 0),
                             (('plain3', 1, 'sigint'), 1)]}
 C09_KINDS = ('callbacks', 'state-left', 'harness-exception', 'bad-return', 'no-return', 'prestart-', 'sigint-')
@@ -125,6 +126,7 @@ def run_sigint_into(rep, tier):
 
 
 def run_into(rep, tier):
+  explore.set_plan(common.thorough_budget(tier), len(SIGINT_CFGS[tier]) + 1)
   run_sigint_into(rep, tier)
   bound = 1 if tier == 'quick' else 2
   r = explore.explore('C09:S', execute, check, bound, cap=30000 if tier == 'quick' else 300000)
